@@ -236,7 +236,7 @@ def eval_spec(draw, pts, K, kinds=('nd', 'utpm'), Dmax=4):
     D = draw(st.sampled_from([2, 3, 1, Dmax]))
     P = draw(st.sampled_from([2, 1, 3]))
     idx = [draw(st.integers(0, K - 1)) for _ in range(P)]
-    hi = [draw(gen.float_array((D - 1, P) + p.shape[1:], gen.coeff_elements(1.0))) for p in pts]
+    hi = [draw(gen.higher_coeffs((D - 1, P) + p.shape[1:], gen.coeff_elements(1.0))) for p in pts]
     return {'kind': 'utpm', 'D': D, 'idx': idx, 'hi': hi}
 
 
